@@ -33,6 +33,19 @@ Theorem C05_revert_partition :
 Proof. exact flat_revert_partition. Qed.
 Print Assumptions C05_revert_partition.
 
+(* the taxa orientation (member indices replaced by pairwise distinct names, keys kept): the name of every item below n
+   occurs exactly once, and two names share a cluster iff their items do *)
+Theorem C05_taxa_partition :
+  forall (T : Type) (T_dec : forall a b : T, {a = b} + {a <> b}) (name : nat -> T),
+    (forall x y, name x = name y -> x = y) ->
+    forall (V : Type) (leb : V -> V -> bool) (link : list V -> V) (d : nat -> nat -> V) (n : nat) (thr : V),
+      let cl := flat leb link d n thr in
+      (forall x, count_name T T_dec (name x) (relabel T name cl) = if x <? n then 1 else 0) /\
+      map fst (relabel T name cl) = map fst cl /\
+      (forall x y, (exists k v, In (k, v) (relabel T name cl) /\ In (name x) v /\ In (name y) v) <-> together cl x y).
+Proof. exact flat_taxa_partition. Qed.
+Print Assumptions C05_taxa_partition.
+
 Example C05_revert_instance :
   let d := fun i j => if Nat.eqb i j then 0 else if (i + j =? 1) then 1 else 5 in
   revert (flat Nat.leb (fun l => fold_right Nat.min 9 l) d 3 2) = [(0, 1); (1, 1); (2, 3)].
